@@ -3,6 +3,7 @@ import traceback
 from .core import MissingAnchor
 from .rules import solver_rules as S
 from .rules import dd_rules as D
+from .rules import store_rules as T
 
 COMMON_ASSUME = [
     'rustc MIR construction, name resolution and the fact extractor (engine/factsdrv) are trusted',
@@ -42,6 +43,10 @@ RULE_FUNCS = [
     (D.r_reset, ['R06.3', 'R02.5']),
     (D.r_flags, ['R06.4']),
     (D.r_pooled_layers, ['R15.1', 'R15.2', 'R15.3']),
+    (T.r_partial_cmp, ['R10.1']),
+    (T.r_dom_cmp, ['R10.2']),
+    (T.r_dom_store, ['R10.3', 'R10.4', 'R10.5', 'R18.a', 'R18.c']),
+    (T.r_cache_store, ['R18.a', 'R18.b', 'R18.c', 'R18.e']),
 ]
 
 
@@ -95,9 +100,11 @@ PROPS = {
     'C07': dict(fn=mk(['R07.', 'R01.7', 'R02.4', 'R02.5', 'R13.a', 'R13.b']), explanation='restricted never merges, exact never squashes, truncation withdraws exactness and flags dropped nodes, squash order, value and path from one node through the best-edge chain, expanded vector is the squashed one'),
     'C08': dict(fn=mk(['R08.', 'R01.4', 'R15.3', 'R12.e'], lambda r: r['rule'] != 'R12.e' or 'relax-' in r['instance'] or 'merge' in r['instance']), explanation='sub-problem fields from one exact, marked node; frontier/LEL admission; progress (first layer never squashed; root test for diagrams that keep nodes in the pool); ub term set; local-bound max-update; push unless ub <= best_lb'),
     'C09': dict(fn=mk(['R09.']), explanation='who writes thresholds and when; explored flag; filter below the root only; filter polarity and theta inheritance; closed list of theta writes with their guards; cache entry fields; mark at pop; must_explore before compiling'),
+    'C10': dict(fn=mk(['R10.']), explanation='decision tables extracted by path enumeration with literal consistency: partial_cmp loop automaton (9 cases) and value stage (9 cases), cmp polarity, retain closure table, threshold terms, store keys, in-layer filtering protocol'),
     'C12': dict(fn=mk(['R12.', 'R15.2']), explanation='provenance (origin terms) of every argument of transition, transition_cost, relax, merge, for_each_in_domain, next_variable; who may call _branch_on; depth counter; merged slice has at least two members'),
     'C13': dict(fn=mk(['R13.']), explanation='squash executed on every expanded layer vector; symbolic length <= max_width at every exit of _restrict/_relax; width guards'),
     'C14': dict(fn=mk(['R14.', 'R01.1', 'R01.4', 'R01.6', 'R09.4', 'R02.1'], lambda r: r['rule'] != 'R02.1' or 'improve-only' in r['instance']), explanation='set_primal strictness table, both fields under one guard; no prune site (pop, enqueue, rough bound, cache filter) discards a node with ub > best_lb; incumbent replaced only on improvement'),
     'C15': dict(fn=mk(['R15.', 'R08.3', 'R12.d', 'R12.f']), explanation='Pooled: un-impacted nodes are neither expanded nor removed from the pool; depth assigned when a node leaves the pool and at finalisation; a layer is recorded only when non-empty; progress rule (root never handed out) shared with C08'),
+    'C18': dict(fn=mk(['R18.', 'R10.1', 'R10.3', 'R10.4', 'R10.5']), explanation='one DashMap::entry call per read-modify-write (no second accessor), update = Ord::max(new, old), Threshold field order and derives, per-layer indexing, clear/clear_layer/initialize, dominance tables'),
     'C19': dict(fn=mk(['R19.', 'R02.1', 'R14.1'], lambda r: r['rule'].startswith('R19') or 'improve-only' in r['instance'] or '/strict' in r['instance']), explanation='best_ub := popped ub, child bound = min(parent, child), incumbent improve-only, Complete sets best_ub := best_lb'),
 }
